@@ -681,3 +681,184 @@ Section Shape2.
       destruct h as [|a [|b r]]; cbn [hunk_okP] in SL; try reflexivity; lia.
   Qed.
 End Shape2.
+
+(** * Under same-change = keep, identical adds resolve only if all terms are identical *)
+Lemma forallb_false_ex {A} (f : A -> bool) l : forallb f l = false -> exists x, In x l /\ f x = false.
+Proof.
+  induction l as [|x t IH]; [discriminate|]. cbn [forallb]. destruct (f x) eqn:E.
+  - cbn. intros H. destruct (IH H) as (y & Hy & Fy). exists y. split; [now right|assumption].
+  - intros _. exists x. split; [now left|assumption].
+Qed.
+
+Section KeepLaw.
+  Variable M : list bytes -> list bytes -> list (nat * nat).
+  Hypothesis M_valid : forall a b, valid_matching (length a) (length b) (M a b).
+  Hypothesis M_eq : forall a b, eq_matching a b (M a b).
+  Hypothesis M_self : forall a, M a a = identity_matching (length a).
+
+  (** The slices of a hunk are the image of the diff inputs under a function, and the hunk's
+      merge is the image of the terms. *)
+  Lemma hunk_image s terms h :
+    Nat.odd (length terms) = true ->
+    In h (hunks (run_steps M s (diff_inputs terms))) ->
+    let ins := diff_inputs terms in
+    let cs := contents ins (snd h) in
+    exists g : bytes -> bytes,
+      cs = map g ins
+      /\ from_removes_adds (firstn (length (odds terms)) cs) (skipn (length (odds terms)) cs) = map g terms.
+  Proof.
+    intros Ho Hh ins cs.
+    assert (Hne : ins <> []).
+    { unfold ins. intros E. pose proof (diff_inputs_length terms) as L. rewrite E in L. cbn in L.
+      destruct terms; [discriminate Ho|discriminate L]. }
+    destruct (hunks_equal_slices M M_valid M_self s ins Hne h Hh) as (Lh & Eh). fold cs in Eh.
+    assert (Lcs : length cs = length ins).
+    { unfold cs, contents. rewrite map2_length. unfold bytes in *. lia. }
+    pose proof (slices_are_image ins cs Lcs Eh) as Img.
+    exists (fun v : bytes => nth (idx v ins) cs []). split; [exact Img|].
+    set (g := fun v : bytes => nth (idx v ins) cs []) in *.
+    rewrite Img. unfold ins, diff_inputs. rewrite map_app.
+    rewrite firstn_app, firstn_all2, skipn_app, skipn_all2 by (rewrite map_length; lia).
+    rewrite map_length, Nat.sub_diag. cbn [firstn skipn]. rewrite app_nil_r. cbn [app].
+    rewrite from_removes_adds_map. now rewrite from_removes_adds_terms.
+  Qed.
+
+  Lemma keep_stream_unresolved s terms S :
+    s <> [] -> Forall (fun tc : tokenizer * comparator => snd tc = CmpExact) s ->
+    Nat.odd (length terms) = true -> 3 <= length terms ->
+    Forall (fun a => a = S) (evens terms) -> ~ Forall (fun r => r = S) (odds terms) ->
+    exists m, In m (resolve_diff_hunks M false s terms) /\ is_resolved m = false
+              /\ length m = length terms
+              /\ exists a, Forall (fun x => x = a) (evens m) /\ ~ Forall (fun r => r = a) (odds m).
+  Proof.
+    intros Hs Hex Ho H3 HS HB. set (ins := diff_inputs terms).
+    set (k := length (odds terms)).
+    assert (Hne : ins <> []).
+    { unfold ins. intros E. pose proof (diff_inputs_length terms) as L. rewrite E in L. cbn in L.
+      destruct terms; [discriminate Ho|discriminate L]. }
+    destruct (allres (resolve_diff_hunks M false s terms)) eqn:AR.
+    - (* every hunk resolved: then every remove equals S *)
+      exfalso. apply HB. apply Forall_forall. intros r0 Hr0.
+      assert (HSin : In S ins).
+      { apply (proj1 (in_diff_inputs S terms)). destruct terms as [|a t]; [discriminate Ho|].
+        change (evens (a :: t)) with (a :: odds t) in HS. inversion HS; subst. now left. }
+      assert (Hrin : In r0 ins).
+      { apply (proj1 (in_diff_inputs r0 terms)). apply (in_evens_odds r0 (length terms) terms); [lia|now left]. }
+      destruct (idx_spec S ins HSin) as (HpS & EpS). destruct (idx_spec r0 ins Hrin) as (Hpr & Epr).
+      destruct (partition_thm M M_valid s ins Hne Hs) as (PL & PC).
+      rewrite <- Epr, <- EpS. rewrite <- (PC _ Hpr), <- (PC _ HpS).
+      rewrite !side_concat_contents by assumption. f_equal. apply map_ext_in. intros h Hh.
+      set (cs := contents ins (snd h)).
+      unfold allres in AR. rewrite forallb_forall in AR.
+      specialize (AR (resolve_hunk false k ins h)).
+      assert (Hres : is_resolved (resolve_hunk false k ins h) = true).
+      { apply AR. unfold resolve_diff_hunks. apply in_map. exact Hh. }
+      unfold resolve_hunk in Hres. fold cs in Hres. destruct (fst h) eqn:K.
+      + (* Matching: all slices equal *)
+        pose proof (matching_eq_thm M M_valid M_eq CmpExact s ins Hne Hs Hex h Hh K) as ME.
+        fold cs in ME. cbn [norm] in ME.
+        assert (Lcs : length cs = length ins).
+        { unfold cs, contents. rewrite map2_length, (PL h Hh). unfold bytes in *. lia. }
+        apply ME; apply nth_In; rewrite Lcs; assumption.
+      + destruct (hunk_image s terms h Ho Hh) as (g & Img & Hm). fold ins in Img, Hm. fold cs in Img, Hm. fold k in Hm.
+        rewrite Hm in Hres.
+        destruct (trivial_merge bytes_eqb false (map g terms)) as [c|] eqn:TM.
+        * assert (Ho' : Nat.odd (length (map g terms)) = true) by now rewrite map_length.
+          assert (He' : Forall (fun x => x = g S) (evens (map g terms))).
+          { rewrite map_evens. apply Forall_map. eapply Forall_impl; [|exact HS]. cbn. now intros a ->. }
+          pose proof (keep_resolves_all_equal bytes_eqb bytes_eqb_spec _ (g S) c Ho' He' TM) as Hod.
+          rewrite map_odds in Hod. rewrite Forall_forall in Hod.
+          assert (Q : g r0 = g S) by (apply Hod; now apply in_map).
+          rewrite Img, !(nth_map_default g ins _ [] []) by assumption. congruence.
+        * (* unresolved hunk of arity >= 3 is not a singleton *)
+          exfalso. apply is_resolved_iff in Hres. rewrite map_length in Hres. lia.
+    - apply forallb_false_ex in AR. destruct AR as (m & Hm & Hr). exists m. split; [assumption|]. split; [assumption|].
+      unfold resolve_diff_hunks in Hm. apply in_map_iff in Hm. destruct Hm as (h & <- & Hh).
+      fold ins k in Hr |- *. unfold resolve_hunk in *. set (cs := contents ins (snd h)) in *.
+      destruct (fst h); [discriminate Hr|].
+      destruct (hunk_image s terms h Ho Hh) as (g & Img & Hmm). fold ins in Img, Hmm. fold cs in Img, Hmm. fold k in Hmm.
+      rewrite Hmm in *. destruct (trivial_merge bytes_eqb false (map g terms)) as [c|] eqn:TM; [discriminate Hr|].
+      split; [apply map_length|]. exists (g S). split.
+      + rewrite map_evens. apply Forall_map. eapply Forall_impl; [|exact HS]. cbn. now intros a ->.
+      + intros Hall.
+        (* then all terms of the hunk are equal, and it would resolve *)
+        assert (He' : Forall (fun x => x = g S) (evens (map g terms))).
+        { rewrite map_evens. apply Forall_map. eapply Forall_impl; [|exact HS]. cbn. now intros a ->. }
+        assert (Ho' : Nat.odd (length (map g terms)) = true) by now rewrite map_length.
+        assert (R : resolves_under_maps bytes_eqb false (map g terms) (g S)).
+        { apply (rum_delta bytes_eqb bytes_eqb_spec); [assumption|]. intros v.
+          pose proof (den_sides bytes_eqb (map g terms) (g S) (g S) true He' Hall v) as D.
+          unfold den. rewrite D. rewrite (evens_odds_length (map g terms) Ho').
+          rewrite Nat2Z.inj_succ. unfold Z.succ. ring. }
+        specialize (R (fun x => x)). rewrite map_id in R. congruence.
+  Qed.
+
+  (** C04_keep_law *)
+  Theorem keep_law word terms S :
+    Nat.odd (length terms) = true -> 3 <= length terms ->
+    Forall (fun a => a = S) (evens terms) -> ~ Forall (fun r => r = S) (odds terms) ->
+    try_merge M false word terms = None.
+  Proof.
+    intros Ho H3 HS HB.
+    destruct (keep_stream_unresolved line_steps terms S) as (m & Hm & Hr & Lm & a & Ha & Hb); auto;
+      [discriminate|apply steps_exact_line|].
+    unfold try_merge, merge_stream. rewrite collect_resolved_spec.
+    destruct word.
+    - assert (Q : allres (map (merge_hunk_by_word M false) (resolve_diff_hunks M false line_steps terms)) = false).
+      { destruct (allres _) eqn:E; [|reflexivity]. exfalso. unfold allres in E. rewrite forallb_forall in E.
+        specialize (E (merge_hunk_by_word M false m) (in_map _ _ _ Hm)).
+        unfold merge_hunk_by_word in E. rewrite Hr in E.
+        destruct (keep_stream_unresolved word_steps m a) as (m2 & Hm2 & Hr2 & _); auto.
+        - discriminate.
+        - repeat constructor.
+        - rewrite Lm. exact Ho.
+        - lia.
+        - rewrite collect_resolved_spec in E.
+          assert (allres (resolve_diff_hunks M false word_steps m) = false).
+          { destruct (allres _) eqn:E2; [|reflexivity]. unfold allres in E2. rewrite forallb_forall in E2.
+            rewrite (E2 m2 Hm2) in Hr2. discriminate. }
+          rewrite H in E. rewrite Hr in E. discriminate. }
+      now rewrite Q.
+    - assert (Q : allres (resolve_diff_hunks M false line_steps terms) = false).
+      { destruct (allres _) eqn:E; [|reflexivity]. unfold allres in E. rewrite forallb_forall in E.
+        rewrite (E m Hm) in Hr. discriminate. }
+      now rewrite Q.
+  Qed.
+End KeepLaw.
+
+(** * Meaning of [C04.keep_okb], and the model passes it *)
+Lemma keep_okb_spec terms accept r :
+  keep_okb terms accept r = true <->
+  (accept = false -> 3 <= length terms ->
+   forall S, Forall (fun a => a = S) (evens terms) -> ~ Forall (fun b => b = S) (odds terms) ->
+             length r <> 1).
+Proof.
+  unfold keep_okb. destruct terms as [|s [|t1 [|t2 rest]]].
+  - split; [cbn; intros; lia|reflexivity].
+  - split; [cbn; intros; lia|reflexivity].
+  - split; [cbn; intros; lia|reflexivity].
+  - set (terms := s :: t1 :: t2 :: rest).
+    destruct (negb accept && forallb (bytes_eqb s) (evens terms) && negb (forallb (bytes_eqb s) (odds terms))) eqn:E.
+    + apply Bool.andb_true_iff in E. destruct E as (E & E3). apply Bool.andb_true_iff in E. destruct E as (E1 & E2).
+      apply Bool.negb_true_iff in E1, E3. apply forallb_eqb_spec in E2.
+      rewrite Bool.negb_true_iff, Nat.eqb_neq. split.
+      * intros H _ _ S _ _. exact H.
+      * intros H. apply (H E1 ltac:(cbn; lia) s E2). intros Q. apply forallb_eqb_spec in Q. congruence.
+    + split; [|reflexivity]. intros _ Ha _ S HS HB. exfalso.
+      assert (S = s). { unfold terms in HS. change (evens (s :: t1 :: t2 :: rest)) with (s :: evens (t2 :: rest)) in HS. now inversion HS. }
+      subst S. rewrite Ha in E. apply (proj2 (forallb_eqb_spec s _)) in HS. rewrite HS in E. cbn [negb andb] in E.
+      apply Bool.negb_false_iff in E. apply forallb_eqb_spec in E. contradiction.
+Qed.
+
+Lemma model_keep_ok M :
+  (forall a b, valid_matching (length a) (length b) (M a b)) ->
+  (forall a b, eq_matching a b (M a b)) ->
+  (forall a, M a a = identity_matching (length a)) ->
+  forall word terms, Nat.odd (length terms) = true ->
+  keep_okb terms false (merge M false word terms) = true.
+Proof.
+  intros V E S word terms Ho. apply keep_okb_spec. intros _ H3 S0 HS HB.
+  pose proof (keep_law M V E S word terms S0 Ho H3 HS HB) as K.
+  destruct (shape_thm M V false word terms Ho) as (_ & _ & _ & Q). cbv zeta in Q.
+  intros L1. apply (proj1 (Q ltac:(lia))) in L1. destruct L1 as (c & Hc). congruence.
+Qed.
